@@ -15,6 +15,7 @@ fn single_bounded_ops(cap: usize, len: usize) -> Vec<BOp> {
     }
     for k in 0..=len + 1 {
         v.push(BOp::Drain(k));
+        v.push(BOp::DrainNth(k));
     }
     v
 }
@@ -48,6 +49,7 @@ pub fn bop(cap: usize) -> impl Strategy<Value = BOp> {
         1 => Just(BOp::Slices),
         1 => Just(BOp::SlicesMutSet),
         1 => (0..cap + 2).prop_map(BOp::Drain),
+        1 => (0..cap + 2).prop_map(BOp::DrainNth),
         1 => (0..cap + 2).prop_map(BOp::Extend),
     ]
 }
